@@ -8,6 +8,7 @@ package main
 import (
 	"bytes"
 	"encoding/binary"
+	"encoding/hex"
 	"flag"
 	"fmt"
 	"math/big"
@@ -185,6 +186,15 @@ func scalars(curve string, rng *rand.Rand, nrand int) []named {
 		b := vlib.Bytes(rng, n)
 		b[n-1] = bl
 		out = append(out, named{"clamp-high", b})
+	}
+	if curve == "x448" {
+		// 4q, q the order of the prime subgroup: clamping leaves it unchanged and it sends EVERY point of the curve to the identity,
+		// so the output is all zero although the peer value is not of low order
+		q4, _ := hex.DecodeString("cc1361ad4a0ae38d543d1637ca09b38540da58bb266d3b11a78f28f3fdffffffffffffffffffffffffffffffffffffffffffffffffffffff")
+		out = append(out, named{"4q", q4})
+		b := append([]byte{}, q4...)
+		b[0] |= 3 // the same after clamping
+		out = append(out, named{"4q+3", b})
 	}
 	for i := 0; i < nrand; i++ {
 		out = append(out, named{"random", vlib.Bytes(rng, n)})
